@@ -36,7 +36,8 @@ TNR ==
      LET w0 == NRWalk(s, len)
          w == IF ~s.wild /\ Comp(s) THEN DropObs(w0, s.zobs) ELSE w0 IN
      /\ s.wild \/ NRAllowed(s, w, Ev.ok, Ev.type, Ev.err, Ev.obs)
-     /\ s' = IF s.wild THEN s ELSE NRNext(s, w, Ev.err)
+     /\ s' = IF s.wild THEN (IF Ev.ok THEN s ELSE [s EXCEPT !.failed = TRUE, !.nerr = s.nerr + 1]) ELSE IF ~s.failed /\ w.res = "wild" /\ ~Ev.ok THEN [w.s EXCEPT !.failed = TRUE, !.nerr = s.nerr + 1]
+                                 ELSE NRNext(s, w, Ev.err)
   /\ UNCHANGED << cfg, fr >> /\ Adv
 
 TRD ==
@@ -68,8 +69,8 @@ TRM ==
   /\ \E len \in BOOLEAN :
      LET w0 == NRWalk(s, len)
          w1 == IF ~s.wild /\ Comp(s) THEN DropObs(w0, s.zobs) ELSE w0 IN
-     IF s.wild THEN s' = s
-     ELSE IF ~s.failed /\ w1.res = "wild" THEN s' = w1.s
+     IF s.wild THEN s' = (IF Ev.ok THEN s ELSE [s EXCEPT !.failed = TRUE, !.nerr = s.nerr + 1])
+     ELSE IF ~s.failed /\ w1.res = "wild" THEN s' = (IF Ev.ok THEN w1.s ELSE [w1.s EXCEPT !.failed = TRUE, !.nerr = 1])
      ELSE IF s.failed \/ w1.res # "data" THEN
           /\ NRAllowed(s, w1, Ev.ok, Ev.type, Ev.err, Ev.obs) /\ Ev.n = 0
           /\ s' = NRNext(s, w1, Ev.err)
@@ -82,9 +83,12 @@ TRM ==
              /\ s' = RANext(s1, wc, Ev.err)
   /\ UNCHANGED << cfg, fr >> /\ Adv
 
+TPanic == /\ Is("PANIC") /\ PanicAllowed(s)
+          /\ UNCHANGED << cfg, fr, s >> /\ Adv
+
 TInit == l = 1 /\ cfg = [role |-> "server"] /\ fr = << >> /\ s = S0
 
-TNext == TReset \/ TNR \/ TRD \/ TRA \/ TRM
+TNext == TReset \/ TPanic \/ TNR \/ TRD \/ TRA \/ TRM
 
 TSpec == TInit /\ [][TNext]_tvars
 
